@@ -60,9 +60,36 @@ def _alter(ch, style):
     return 'Y' if ch == 'X' else 'X'
 
 
-def text_mutations(data, every, styles):
+def text_mutations(data, every, styles, raw_bytes=False):
     """yield (kind, line index or None, new data)."""
     lines, final = _split(data)
+    # a non-ASCII character, a NUL, (files) a Latin-1 byte, a CR before the
+    # line terminator
+    for i, raw in enumerate(lines):
+        if gh.TMP_MARK.encode() in raw:
+            continue
+        mid = len(raw) // 2
+        while mid < len(raw) and (raw[mid] & 0xC0) == 0x80:
+            mid += 1                    # not inside a UTF-8 sequence
+        extra = [('nonascii-insert', '\u00e9'.encode('utf-8')),
+                 ('nul-insert', b'\x00')]
+        if raw_bytes:
+            extra.append(('latin1-insert', b'\xe9'))
+        for kind, ins in extra:
+            yield ('%s@%d' % (kind, i), i,
+                   _join(lines[:i] + [raw[:mid] + ins + raw[mid:]]
+                         + lines[i + 1:], final))
+        if i == 0 or every:
+            if raw and raw[0] < 0x80:
+                yield ('nonascii-replace@%d' % i, i,
+                       _join(lines[:i] + ['\u00e9'.encode('utf-8') + raw[1:]]
+                             + lines[i + 1:], final))
+            if final or i < len(lines) - 1:
+                yield ('crlf@%d' % i, i,
+                       _join(lines[:i] + [raw + b'\r'] + lines[i + 1:],
+                             final))
+    if lines:
+        yield ('final-newline', None, _join(lines, not final))
     for i, raw in enumerate(lines):
         try:
             s = raw.decode('utf-8')
@@ -99,6 +126,10 @@ def binary_mutations(data):
     yield ('append', None, data + b'\x00')
     if data:
         yield ('truncate', None, data[:-1])
+
+
+class _Abort(Exception):
+    pass
 
 
 class C12(Check):
@@ -148,7 +179,11 @@ class C12(Check):
                          'from a manual run, previous generation in the same '
                          'directory} x one file at every place / two files '
                          'with colliding names x naming; content-changed and '
-                         'no-longer-produced applied to each file')]
+                         'no-longer-produced applied to each file'),
+             ('chars', 'splitlines() boundary classes, NUL, astral next to '
+                       'a plain line on stdout / stderr / in a text file'),
+             ('runmodes', 'post-mutation run in a fresh process / the SAME '
+                          'loaded module and class run again')]
         if tier == 'thorough':
             L.append(('pairs', 'two simultaneous mutations on different '
                                'outputs'))
@@ -238,6 +273,43 @@ class C12(Check):
                             if tier != 'thorough':
                                 c['menu'] = 'short'
                             yield c
+        elif layer == 'chars':
+            for t in gh.CHAR_TOKENS:
+                for it in ((1, 2) if tier == 'thorough' else (2,)):
+                    for c in (mk(out=[t, 'plain'], err=['plain'], iters=it),
+                              mk(out=['plain'], err=['plain', t], iters=it),
+                              mk(out=['plain'], iters=it, spec='explicit',
+                                 files=[{'kind': 'text', 'sub': 0,
+                                         'lines': [t, 'plain']}])):
+                        if tier != 'thorough':
+                            c['menu'] = 'short'
+                        yield c
+        elif layer == 'runmodes':
+            shapes = [
+                mk(out=['plain'], err=['quotes']),
+                mk(out=['plain', 'today'], err=[], status=3, nonzero=1),
+                mk(out=['plain'], files=[{'kind': 'text', 'sub': 0}],
+                   spec='explicit'),
+                mk(out=['host'], files=[{'kind': 'bin', 'sub': 1}],
+                   spec='dir'),
+                mk(out=['tmp'], err=['plain'],
+                   files=[{'kind': 'text', 'sub': 2}], spec='none'),
+                mk(out=['plain'],
+                   files=[{'kind': 'text', 'sub': 1, 'name': 'Report.txt',
+                           'lines': ['plain']},
+                          {'kind': 'text', 'sub': 3, 'name': 'Report.txt',
+                           'lines': ['quotes', 'plain']}], spec='dir'),
+            ]
+            for sh in shapes:
+                for it in (1, 2):
+                    c = dict(sh, iters=it, mode='same')
+                    if tier != 'thorough':
+                        c['menu'] = 'short'
+                    yield c
+            for sh in (shapes if tier == 'thorough' else shapes[:1] + shapes[2:3]
+                       + shapes[4:5]):
+                c = dict(sh, mode='fresh', menu='short')
+                yield c
         elif layer == 'pairs':
             for o in ('plain', 'today', 'regex'):
                 for k in ('text', 'bin'):
@@ -275,10 +347,13 @@ class C12(Check):
             shown = [l.replace(MARK, H.gtmp.encode()).decode('utf-8',
                                                              'replace')
                      for l in lines]
-            for kind, li, new in text_mutations(data, every, styles):
+            for kind, li, new in text_mutations(data, every, styles,
+                                                raw_bytes=target != 'stdout'
+                                                and target != 'stderr'):
                 gray = (li is not None
                         and spec.may_be_excluded(shown[li], env)) \
-                    or spec.only_final_newline_differs(data, new)
+                    or spec.only_final_newline_differs(data, new) \
+                    or kind.startswith('crlf')
                 cl = '-'
                 if li is not None and toks and li < len(toks):
                     cl = spec.classify_token(toks[li])
@@ -314,7 +389,9 @@ class C12(Check):
             for m in out:
                 k = m[1].split('@')[0]
                 cls_ = ('content' if k in ('alter', 'flip') else k
-                        if k in ('not-produced', 'add', 'remove') else
+                        if k in ('not-produced', 'add', 'remove',
+                                 'nonascii-insert', 'nul-insert',
+                                 'latin1-insert') else
                         'status' if k.startswith('status') else None)
                 if cls_ is None or m[2] or (m[0], cls_) in seen:
                     continue
@@ -326,6 +403,13 @@ class C12(Check):
     # ----------------------------------------------------------- run_case
     def run_case(self, case):
         R = Res()
+        try:
+            self._run_case(case, R)
+        except _Abort:
+            pass
+        return R
+
+    def _run_case(self, case, R):
         H = self.H
         pairs = case.get('pairs')
         regen = case.get('regen')
@@ -347,6 +431,9 @@ class C12(Check):
         g = H.generate(b, settle=0.03 if (regen or case.get('pre')) else 0.0)
         R.ev()
         R.states = 1
+        if g.get('hang'):
+            R.out('not-generated:hang')
+            return R
         if g['exc'] is not None or g['exit'] is not None \
                 or not os.path.isfile(b.script):
             # not a generated test: nothing C12 can say (C11 reports it)
@@ -388,11 +475,31 @@ class C12(Check):
                 return 'bytes'
             if k.startswith('status'):
                 return 'status'
-            return k
+            if k.startswith('nonascii'):
+                return 'nonascii'
+            return k.replace('-insert', '')
+
+        mode = case.get('mode', 'reimport')
+        loaded = [None]
 
         def run():
-            r = H.run_script(b, code)
+            """one run of the generated test: in a fresh process, freshly
+            imported in this process, or the SAME loaded module and class
+            objects run again (a runner re-running loaded tests)"""
+            if mode == 'fresh':
+                r = H.run_fresh_process(b)
+            elif mode == 'same':
+                r = H.run_script(b, code, module=loaded[0])
+                loaded[0] = r['module'] or loaded[0]
+            else:
+                r = H.run_script(b, code)
             R.ev()
+            if r['hang']:
+                R.out('generated-test-hangs')
+                R.viol('generated-test-hangs:%s' % mode,
+                       'change-is-reported-by-its-test',
+                       {'case': case, 'limit_s': gh.HANG_LIMIT})
+                raise _Abort()
             bad = sorted(t for t, v in r['tests'].items() if v != 'ok')
             return r, bad
 
